@@ -1,7 +1,9 @@
 package main
 
 import (
+	"errors"
 	"fmt"
+	"io"
 	"math/rand"
 	"reflect"
 	"runtime"
@@ -631,6 +633,66 @@ func genC11(o *hx.Out, tier string) {
 		node.Close()
 		o.Add("one message object reused for every write", verdict, "expect", "ok", "message-reuse")
 	}
+	// ---- a transport that outlives its channel (a custom endpoint hands the same transport to the next
+	// channel after a read fault) and takes its time over every Write: whatever is written to it while
+	// the channels change, the bytes on the wire are whole frames, one after the other ----
+	for rep := 0; rep < 3; rep++ {
+		tw := newTornWire()
+		node, err := gomavlib.NewNode(gomavlib.NodeConf{Endpoints: []gomavlib.EndpointConf{gomavlib.EndpointCustom{ReadWriteCloser: tw}},
+			Dialect: d, OutVersion: gomavlib.V2, OutSystemID: 10, HeartbeatDisable: true})
+		verdict := "ok"
+		if err != nil {
+			verdict = "NODE-FAILED"
+		} else {
+			col := scn.NewCollector(node, 0, false)
+			stop := make(chan struct{})
+			var wg sync.WaitGroup
+			wg.Add(1)
+			go func() {
+				defer wg.Done()
+				for i := 0; ; i++ {
+					select {
+					case <-stop:
+						return
+					default:
+					}
+					node.WriteMessageAll(serialMsg(i)) //nolint:errcheck
+					time.Sleep(100 * time.Microsecond) // faster than the wire: the channel always has a backlog
+				}
+			}()
+			for life := 0; life < 3; life++ {
+				time.Sleep(40 * time.Millisecond)
+				tw.fail <- fmt.Errorf("read fault %d", life)
+			}
+			time.Sleep(30 * time.Millisecond)
+			close(stop)
+			wg.Wait()
+			time.Sleep(50 * time.Millisecond)
+			scn.CloseWithin(node, 10*time.Second)
+			<-col.Done
+			wire := tw.bytes()
+			rd := &frame.Reader{ByteReader: strings.NewReader(string(wire)), DialectRW: drw}
+			rd.Initialize() //nolint:errcheck
+			frames, perr := 0, 0
+			for {
+				_, err := rd.Read()
+				if err == nil {
+					frames++
+					continue
+				}
+				var pe frame.ReadError
+				if errors.As(err, &pe) {
+					perr++
+					continue
+				}
+				break
+			}
+			if perr != 0 || frames == 0 {
+				verdict = fmt.Sprintf("WIRE-NOT-WHOLE-FRAMES %d frames, %d parse errors in %d bytes", frames, perr, len(wire))
+			}
+		}
+		o.Add("a transport reused by successive channels, slow writes", verdict, "expect", "ok", fmt.Sprintf("torn-wire rep=%d", rep))
+	}
 	// ---- a stalled channel does not keep writes from the healthy ones ----
 	for sc := 0; sc < 4; sc++ {
 		pipes := []*scn.Pipe{scn.NewPipe("stalled"), scn.NewPipe("healthy")}
@@ -709,4 +771,43 @@ func canon(drw *dialect.ReadWriter, m message.Message, v2 bool) message.Message 
 		return m
 	}
 	return out
+}
+
+// tornWire is a transport whose Write stores one byte at a time, yielding in between (so that two
+// writers at once would interleave their bytes), and whose Read fails when told to.
+type tornWire struct {
+	mu   sync.Mutex
+	data []byte
+	fail chan error
+	done chan struct{}
+	once sync.Once
+}
+
+func newTornWire() *tornWire { return &tornWire{fail: make(chan error), done: make(chan struct{})} }
+
+func (t *tornWire) Read(p []byte) (int, error) {
+	select {
+	case err := <-t.fail:
+		return 0, err
+	case <-t.done:
+		return 0, io.EOF
+	}
+}
+
+func (t *tornWire) Write(p []byte) (int, error) {
+	for _, b := range p {
+		t.mu.Lock()
+		t.data = append(t.data, b)
+		t.mu.Unlock()
+		time.Sleep(20 * time.Microsecond)
+	}
+	return len(p), nil
+}
+
+func (t *tornWire) Close() error { t.once.Do(func() { close(t.done) }); return nil }
+
+func (t *tornWire) bytes() []byte {
+	t.mu.Lock()
+	defer t.mu.Unlock()
+	return append([]byte(nil), t.data...)
 }
